@@ -91,11 +91,15 @@ pub fn minimise(w: &Workload, fail: &Fail, refs: &Refs, data: &DataFiles) -> (Wo
     let mut budget = 400u32;
 
     // 0. without probes and decoder faults
-    for variant in 0..2 {
+    for variant in 0..3 {
         let mut c = best.clone();
         if variant == 0 {
             c.cfg.read_short_permille = 0;
             c.cfg.read_eintr_permille = 0;
+        } else if variant == 2 {
+            c.cfg.stall_period = 0;
+            c.cfg.stall_budget = 0;
+            c.cfg.hold_permille = 0;
         } else {
             c.cfg.probe_yield_permille = 0;
             c.cfg.probe_sites_enabled = 0;
